@@ -25,7 +25,8 @@ LEVEL_TEXT = ("Proof, for the models' access sets, of 64 of the 69 compiled kern
               "src_chunksize >= 1, every dest_chunksize and multiplier); the six journalling kernels and journal_table; "
               "categorical / leaky categorical / numeric_bool / fixed_string transforms and transform_to_values on every well-formed "
               "chunk; fast_csv_reader on every window of the supported regime and its driver over any number of windows; the six flat "
-              "legacy join kernels and Session.ordered_merge_left (non-streamable configurations); check_if_sorted_for_multi_fields and "
+              "legacy join kernels, the two `_old` streamed join drivers (every chunk size >= 1), Session.ordered_merge_left / right in "
+              "every covered form and Session.join; check_if_sorted_for_multi_fields and "
               "the group-by kernel pipeline. Each `no_oob_*` theorem states, under exactly the validity predicate of the owning "
               "theorem, that for every site the model run is not `.error (.oob site)`. Buffer statements for ALL arguments: a checked "
               "write is refused exactly when the position is not below the buffer size (push_oob_iff, pushV_oob_iff, setE_oob_iff), and no "
@@ -35,16 +36,17 @@ LEVEL_TEXT = ("Proof, for the models' access sets, of 64 of the 69 compiled kern
               "(access_sites_covered_<family>, 11 theorems), and every compiled kernel of the source is in a table or in the explicit "
               "not-modelled list (kernel_inventory_complete). Partial (`_partial` theorems, hypotheses inherited from the owners): CSV "
               "driver without buffer regrowth; indexed unique without trailing NULs (NC14a); group-by with a faithful stacking cast "
-              "(D20); Session.ordered_merge_left for non-streamable calls. Partial by nature: what a stray write would do to the heap "
+              "(D20). Partial by nature: what a stray write would do to the heap "
               "is not modelled.")
 LEVEL_NOTE = ("Trusted: Lean kernel; tools/translate_kernels.py (AST extraction of loop guards and subscripts of the @exetera_njit "
               "functions; `if` tests that guard a subscript are NOT extracted - their removal is caught by the correspondence, where the "
               "model has the branch, not by the site tables); the hand-written models (validated by the differential runs under "
               "NUMBA_BOUNDSCHECK=1 and USE_NUMBA=false, where numba / numpy raise IndexError on any out-of-range scalar access). "
+              "The bounds-checked / interpreted re-runs of this check take the cases of C03, C04, C05, C06, C08, C09, C14, C16, C17; the "
+              "kernels owned by C07 and C19 run bounds-checked in those properties' own thorough tiers. "
               "Differential runs only: the 5 kernels without a model (ordered_left_map_result_size, "
               "ordered_outer_map_result_size_both_unique, ordered_inner_map_left_unique_partial, ordered_get_last_as_filter, "
-              "streaming_sort_partial - none has a caller in the library); the `_old` streamed join drivers "
-              "(generate_ordered_map_to_left_right_unique_partial_old, ordered_map_valid_partial_old: modelled, no theorem); the "
+              "streaming_sort_partial - none has a caller in the library); the "
               "buffer-full early return and regrowth of fast_csv_reader; subscripts the models do not check: the column subscript of "
               "column_offsets[i_c] / column_inds[i_c, .] in the five import transforms, elements[row_idx] / validity[row_idx] of "
               "numeric_bool_transform, i_result / v_result of safe_map_indexed_values (all sized by the kernel or its only caller at "
